@@ -11,28 +11,42 @@
 
       edits_valid (i ops) : WF i → run ops (tree i) >>= save = ok b → validImage b ∧ b.length = (ser i).length
 
-  What is proved here, all without any bound on image size, number of volumes / files, or length of
-  the operation sequence:
-    * the size half of it, for every tree that satisfies the size invariant `Sized` (`edits_same_size`),
-      which every parsed tree does (`parse_sized`), hence from the bytes for every bare BIOS image and
-      every flash image of a whole number of 4 KiB blocks (`edits_same_size_image`);
-    * the layers under the validity half, each against the independent reader: pad files
-      (`padFile_valid`), the placement arithmetic of Appendix A.1 (`relayout_offsets`,
-      `relayout_loop`), the file area a relayout writes (`relayout_valid`: L1–L4), the **whole volume**
-      after a relayout that does not grow it (`relayout_volume_valid`: `fvOk`, header rules included),
-      regenerated sections (`genSecHeader_valid`), the section area of a rebuilt file
-      (`section_area_valid`: S1–S2) and the rebuilt file itself (`asmFile_valid`: X1–X5);
-    * the error half (`error_cases_*`, `save_atomic`).
-  Not proved (checks.d `unproved`; carried by T2 and the oracle `saved-image-valid`, which runs the
-  Lean reader on the bytes fiano wrote): the composition of these layers along the recursion
-  file → section → nested volume into one closed statement over trees (it needs the header rules of a
-  volume that *grows* — nested volumes — and the FFSv3 switch), the region scan, and the descriptor
-  rules.
+  It is proved below as ONE closed theorem from the bytes (`edits_valid`, follow-up wp-c02b): for every
+  image the independent reader accepts (below 256 MiB) and every command line of the modelled
+  operations — insert ×5, pad_file, insert_dxe, remove, remove_pad, replace_pe32, saves, read-only
+  commands —, if `utk` succeeds then every image it wrote passes `Valid.validImage` AND has the size of
+  the input.  The proof is an invariant argument: `TreeOk` (Uefi/TreeOk.lean, EditValidTop.lean) is
+  established by the parser (`parse_establishes_TreeOk`), preserved by every operation and by
+  `Assemble` itself (`edits_valid_tree`), and `Assemble` of a `TreeOk` tree writes a valid image — layer
+  by layer: `asmSection_valid` (every section kind incl. volume images holding an assembled nested
+  volume), `asmFile_valid_node` (rebuilt / kept / NVAR / pad files), `asmFv_valid` incl. the growing
+  branch of a resizable volume and the FFSv3 GUID switch (`relayout_volume_valid_any`),
+  `asmBios_valid` (region scan, rules B1–B2), `asmFlash_valid` (descriptor rules F1–F5).
+
+  The hypotheses the proof forced, all explicit and decidable (none is needed for the size half):
+    * the input passes the reader, is shorter than 256 MiB (16-bit block numbers of the descriptor),
+      and fiano read its headers as the specification does (`readAlikeB`: no section of an unlisted
+      type with 3-byte size FFFFFF; no extended header exactly 20 bytes before the end of a volume;
+      nested volumes have one block-map entry with a power-of-two size);
+    * a new file is one the reader accepts, a new PE32 body fits a section (`SpecOk`);
+    * the hooks for codecs / NVAR stores satisfy their laws (`BoundedCodecs`, `NvLaw`).
+  `create-fv` (pkg/visitors/createfv.go) is modelled in Uefi/CreateFv.lean (tie T2:
+  harness/props/c02/createfv.go) and covered by the same argument: the volume it builds passes the
+  reader (`createFv_volume_valid`), the operation keeps `TreeOk` (`createFv_valid`), and command lines
+  that mix it with the other operations write only valid images of the input's size
+  (`edits_valid_createfv`) — provided every `create-fv` finds its state as `CreateFvPre` asks: erase
+  polarity 0xFF, and the padding it splits is entered at a multiple of 8 (anywhere else the new volume
+  is never found again, finding F-c02b-3) and shows no volume signature at its probes.
+  The older statements (size half, single layers, error half) are kept.
 -/
 import FianoModel.Uefi.ParseSized
 import FianoModel.Uefi.SectionLemmas
 import FianoModel.Uefi.EditTie
 import FianoModel.Uefi.CodeTie   -- T1 code-as-code tie (wp-t1x): audited as a tie module of this check
+import FianoModel.Uefi.ParseOk12
+import FianoModel.Uefi.CreateFvOk4
+import FianoModel.Uefi.CreateFvSample
+import FianoModel.Uefi.SampleC04
 
 namespace Fiano.Uefi.C02
 open EditArith
@@ -321,4 +335,332 @@ set_option maxRecDepth 65536 in
 example : hdrOk emptyVolume = true ∧ fvIsFfs emptyVolume = true ∧ fvFirst emptyVolume = 72 ∧
     fvErased emptyVolume = 0xFF := by decide
 
+end Fiano.Uefi.C02
+
+/-! ## follow-up wp-c02b: the validity half, closed -/
+
+namespace Fiano.Uefi.C02
+open EditArith
+open Fiano Fiano.Uefi
+
+/-- **`asmSection_valid`** (layer (a)): `Assemble` on a section node that satisfies the invariant
+    `SecOk` — a kept leaf, a regenerated UI / version / depex section, a GUID-defined section rebuilt
+    around its (re-compressed or kept) data, a volume-image section around its *assembled* nested
+    volume — returns a node that satisfies it again and whose buffer is a section the independent
+    reader accepts on its own (S1–S3, the nested volume included), when less than 2 GiB are written -/
+theorem asmSection_valid (h : Hooks) (hlaw : h.NvLaw) (s s' : Section) (st st' : St) (hok : SecOk s)
+    (ha : asmSection h s st = .ok (s', st')) (hlen : s'.buf.length < 2 ^ 31) : SecOk s' ∧ SecBytesOk s'.buf :=
+  asmSection_ok h hlaw s st s' st' hok ha hlen
+
+/-- **`asmFile_valid`, whole file nodes** (layer (b)): `Assemble` on a file node that satisfies `FileOk`
+    — rebuilt from its assembled sections, rebuilt around an NVAR store, or kept (no sections: RAW,
+    PEIM, pad, unparsed types) — returns a node that satisfies it again and whose buffer the reader
+    accepts wherever its data alignment holds (X1–X5) -/
+theorem asmFile_valid_node (h : Hooks) (hlaw : h.NvLaw) (e : UInt8) (he : e = 0xFF ∨ e = 0) (f f' : File) (st st' : St)
+    (hok : FileOk e f) (ha : asmFile h f st = .ok (f', st')) (hlen : f'.buf.length < 2 ^ 31) :
+    FileOk e f' ∧ GoodFile e (f'.info.attrs, f'.buf) :=
+  asmFile_ok h hlaw e f st f' st' hok ha he hlen
+
+/-- **`relayout_valid`, whole volume, any branch**: the relayout of a volume node whose fields agree
+    with its valid buffer (`FvHdrOk`) writes a volume the reader accepts in full (V1–V7, L1–L4, X1–X5)
+    — also when the volume **grows** to the next block boundary (`Length` and `Blocks[0].Count`
+    rewritten, one power-of-two block entry), when the file-system GUID is switched to FFSv3, and for
+    a volume that is not an FFS volume; the node's fields agree with the new buffer again -/
+theorem relayout_volume_valid_any (i : FvInfo) (buf : Bytes) (files : List File) (st : St) (i' : FvInfo) (out : Bytes)
+    (st' : St) (h : relayoutFv i buf files st = .ok (i', out, st')) (hinv : FvHdrOk i buf)
+    (hpol : st.pol = fvErased buf) (hgood : ∀ f ∈ files, GoodFile st.pol (f.info.attrs, f.buf))
+    (hbound : out.length < 2 ^ 31) :
+    FvHdrOk i' out ∧ FvBytesOk out ∧ buf.length ≤ out.length ∧ (i.resizable = false → out.length = buf.length) := by
+  obtain ⟨h1, _, _, _, h5, h6, _, _⟩ := relayoutFv_ok i buf files st i' out st' h hinv hpol hgood hbound
+  exact ⟨h1, h1.ok, h5, h6⟩
+
+/-- **`asmFv_valid`** (layer (c)): `Assemble` on a volume node that satisfies `FvOk` (its files and
+    everything below included) returns a node that satisfies it again — in particular its buffer is a
+    volume the reader accepts (`FvOk v'` contains `FvBytesOk v'.buf`) — and a non-resizable volume keeps
+    its length -/
+theorem asmFv_valid (h : Hooks) (hlaw : h.NvLaw) (v v' : Fv) (st st' : St) (hok : FvOk v)
+    (ha : asmFv h v st = .ok (v', st')) (hlen : v'.buf.length < 2 ^ 31) :
+    FvOk v' ∧ (v.info.resizable = false → v'.buf.length = v.buf.length) := by
+  obtain ⟨h1, h2⟩ := asmFv_ok h hlaw v st v' st' hok ha hlen
+  exact ⟨h1, h2.same⟩
+
+/-- **`asmBios_valid`** (layer (d)): `Assemble` on a BIOS region that satisfies `BiosOk` writes a region
+    that passes the reader's region scan (B1–B2: every `_FVH` hit at an 8-byte step is a valid volume,
+    at least one), of the region's length -/
+theorem asmBios_valid (h : Hooks) (hlaw : h.NvLaw) (b b' : BiosRegion) (st st' : St) (hok : BiosOk b)
+    (ha : asmBios h b st = .ok (b', st')) (hlen : b.length < 2 ^ 31) :
+    BiosOk b' ∧ Valid.biosOk b'.buf = true ∧ b'.length = b.length := by
+  obtain ⟨h1, h2, _, _, h5, _⟩ := asmBios_ok h hlaw b b' st st' hok ha hlen
+  exact ⟨h1, h2, h5⟩
+
+/-- **`asmFlash_valid`** (layer (d)): `Assemble` on a flash tree that satisfies `FlashOk` writes an image
+    the reader accepts (descriptor rules F1–F5, the BIOS region's rules) -/
+theorem asmFlash_valid (h : Hooks) (hlaw : h.NvLaw) (f f' : Flash) (st st' : St) (hok : FlashOk f)
+    (ha : asmFlash h f st = .ok (f', st')) (hL : f.flashSize < 2 ^ 31) : FlashOk f' ∧ Valid.validImage f'.buf = true :=
+  asmFlash_ok h hlaw f f' st st' hok ha hL
+
+/-- **`edits_valid`, from a tree** (layer (e)): the invariant `TreeOk` is preserved by every modelled
+    operation and by `Assemble`; every image a run writes from a `TreeOk` tree passes the independent
+    reader and has the size the tree stands for -/
+theorem edits_valid_tree (h : Hooks) (hlaw : h.NvLaw) (ops : List Op) (t : Tree) (st : St) (s' : Run)
+    (hr : run h ops { tree := t, st := st } = .ok s') (hops : ∀ op ∈ ops, OpOk op) (hok : TreeOk t)
+    (hL : rootLen t < 2 ^ 31) : ∀ b ∈ s'.outs, Valid.validImage b = true ∧ b.length = rootLen t := by
+  intro b hb
+  exact ⟨run_valid h hlaw ops _ s' hr hops hok hL (by simp) b hb,
+    run_same_size h ops _ s' hr (treeOk_sized t hok) (by simp) b hb⟩
+
+/-- **`parse_establishes_TreeOk`**: on every image the reader accepts (below 256 MiB) the tree
+    `uefi.Parse` builds satisfies the invariant, when fiano read the headers as the specification
+    does (`readAlikeB`, decidable on the tree) -/
+theorem parse_establishes_TreeOk (h : Hooks) (hb : h.BoundedCodecs) (hlaw : h.NvLaw) (fuel : Nat) (image : Bytes)
+    (st st' : St) (t : Tree)
+    (hp : parseWith h fuel image st = .ok (t, st')) (hv : Valid.validImage image = true)
+    (hL : image.length < 65536 * 4096) (hRA : readAlikeB t = true) : TreeOk t ∧ rootLen t = image.length :=
+  Fiano.Uefi.parse_establishes_TreeOk h hb hlaw fuel image st st' t hp hv hL (readAlikeB_sound t hRA)
+
+/-- a blob the reader accepts as a file is a new file that may be inserted (`SpecOk` for `insert`) -/
+theorem newFile_valid (h : Hooks) (hb : h.BoundedCodecs) (hlaw : h.NvLaw) (fuel : Nat) (blob : Bytes) (st st' : St) (nf : File)
+    (hp : parseFile h fuel blob st = .ok (some nf, st')) (hL : blob.length < 2 ^ 62)
+    (size hl fuel' o : Nat) (hfs : Valid.fileSize blob = some (size, hl))
+    (hok : Valid.fileOk fuel' (blob.take size) o = true)
+    (hFF : Valid.allAre 0xFF (blob.take 24) = false) (h00 : Valid.allAre 0 (blob.take 24) = false)
+    (hRA : fileRAb nf = true) (hpos : 0 < nf.info.extSize) : NewFileOk nf :=
+  newFile_est h hb hlaw fuel blob st st' nf hp hL size hl fuel' o hfs hok hFF h00 (fileRAb_sound nf hRA) hpos
+
+/-- **`edits_valid`** — the central theorem of DESIGN §7-C02, closed, from the bytes: for every image
+    the independent reader accepts and every command line of the modelled operations (insert at front
+    / end / after / before, replace_ffs, insert pad_file, insert_dxe, remove, remove_pad, replace_pe32,
+    intermediate saves, read-only commands), if `utk` succeeds then **every image written passes the
+    independent reader and has the size of the input**. -/
+theorem edits_valid (h : Hooks) (hb : h.BoundedCodecs) (hlaw : h.NvLaw) (image : Bytes) (specs : List OpSpec) (r : Run)
+    (hu : utk h image specs = .ok r)
+    (hv : Valid.validImage image = true) (hL : image.length < 65536 * 4096)
+    (hspecs : ∀ s ∈ specs, SpecOk h s)
+    (hRA : ∀ ops st t st', cliParse h specs {} = .ok (ops, st) →
+      parseWith h (defaultFuel image) image st = .ok (t, st') → readAlikeB t = true) :
+    ∀ b ∈ r.outs, Valid.validImage b = true ∧ b.length = image.length := by
+  unfold utk at hu
+  split at hu
+  · cases hu
+  · rename_i ops st hcli
+    split at hu
+    · cases hu
+    · rename_i t st' hp
+      obtain ⟨hok, hlen⟩ := parse_establishes_TreeOk h hb hlaw _ image st st' t hp hv hL (hRA ops st t st' hcli hp)
+      have hops := cliParse_ok h specs {} ops st hcli hspecs
+      intro b hbm
+      have := edits_valid_tree h hlaw ops t st' r hu hops hok (by rw [hlen]; omega) b hbm
+      rw [hlen] at this
+      exact this
+
+/-! ### non-vacuity of the new hypotheses -/
+
+open SampleC04 in
+/-- the hooks laws are satisfiable: no codec / no NVAR parsing, and the one-codec hooks of the sample -/
+example : Hooks.none.NvLaw ∧ Hooks.none.BoundedCodecs ∧ hooks.BoundedCodecs :=
+  ⟨Hooks.none_nvLaw, none_bounded, hooks_bounded⟩
+
+open SampleC04 in
+theorem hooks_nvLaw : hooks.NvLaw := by
+  refine ⟨fun b nv hn => ?_, fun nv pol nv' hl hn => ?_⟩
+  · simp [hooks] at hn
+  · simp only [hooks] at hn
+    cases hn
+    exact hl
+
+open SampleC04 in
+set_option maxRecDepth 100000 in
+/-- the 264-byte sample image of property C04 (a volume with a checksummed driver with UI and RAW
+    sections, a driver with a GUID-defined section with decoded children, a pad file, free space; then
+    16 bytes of padding) passes the independent reader -/
+theorem sampleBios_valid : Valid.validImage sampleBios = true := by decide +kernel
+
+open SampleC04 in
+set_option maxRecDepth 100000 in
+/-- … and fiano reads its headers as the specification does -/
+theorem sampleBios_readAlike :
+    (match parseWith hooks (defaultFuel sampleBios) sampleBios {} with
+     | .ok (t, _) => readAlikeB t
+     | .error _ => false) = true := by
+  rw [← parseWith_eval]; decide +kernel
+
+open SampleC04 in
+/-- **`TreeOk` is inhabited by a parsed tree** (so neither `parse_establishes_TreeOk` nor
+    `edits_valid_tree` is vacuous) -/
+theorem sampleBios_treeOk : ∃ t st', parseWith hooks (defaultFuel sampleBios) sampleBios {} = .ok (t, st') ∧ TreeOk t := by
+  have hs := sampleBios_readAlike
+  match hp : parseWith hooks (defaultFuel sampleBios) sampleBios {} with
+  | .ok (t, st') =>
+    rw [hp] at hs
+    exact ⟨t, st', rfl, (parse_establishes_TreeOk hooks hooks_bounded hooks_nvLaw _ sampleBios {} st' t hp sampleBios_valid
+      (by decide +kernel) hs).1⟩
+  | .error _ => rw [hp] at hs; cases hs
+
+/-- a 24-byte pad file is a new file that may be inserted, and `insert pad_file 24` is a command the
+    theorem covers -/
+example : ∃ pf, mkPadFile 0xFF 24 = .ok pf ∧ NewFileOk pf := by
+  obtain ⟨f, hf, _⟩ := mkPadFile_valid 0xFF 24 (by omega) (by omega) (Or.inl rfl)
+  exact ⟨f, hf, mkPadFile_fileOk _ _ f hf (by omega) 0xFF (Or.inl rfl), mkPadFile_fileOk _ _ f hf (by omega) 0 (Or.inr rfl)⟩
+
+example (p : Pred) : SpecOk Hooks.none (.insertPad p .front 24) ∧ SpecOk Hooks.none (.replacePe32 p [0x4D, 0x5A]) ∧
+    SpecOk Hooks.none (.remove p true) ∧ SpecOk Hooks.none .save := by
+  refine ⟨?_, ?_, trivial, trivial⟩
+  · show 24 < 2 ^ 64; omega
+  · show [0x4D, 0x5A].length + 28 < 4294967296; decide
+
+/-! ### the closed theorem applied to a run that writes -/
+
+open SampleC04
+
+/-- the two drivers of the sample volume, by GUID -/
+def firstDriver : Pred := { file := fun f => f.info.guid == [1, 2, 3, 4, 5, 6, 7, 8, 9, 10, 11, 12, 13, 14, 15, 16] }
+def secondDriver : Pred := { file := fun f => f.info.guid ==
+  [0x21, 0x22, 0x23, 0x24, 0x25, 0x26, 0x27, 0x28, 0x29, 0x2a, 0x2b, 0x2c, 0x2d, 0x2e, 0x2f, 0x30] }
+/-- `utk sample remove <1st> save a replace_pe32 <2nd> MZ remove_pad <2nd> save b` -/
+def sampleSpecs : List OpSpec :=
+  [.remove firstDriver false, .save, .replacePe32 secondDriver [0x4D, 0x5A], .remove secondDriver true, .save]
+
+set_option maxRecDepth 100000 in
+/-- the run succeeds and writes two images, both different from the input -/
+theorem sample_run : (match utk hooks sampleBios sampleSpecs with
+    | .ok r => r.outs.length == 2 && r.outs.all (fun b => b != sampleBios)
+    | .error _ => false) = true := by
+  unfold utk
+  simp only [← parseWith_eval]
+  decide +kernel
+
+/-- **the hypotheses of `edits_valid` are jointly satisfiable on a run that writes**: the theorem
+    applies to the sample image with a five-command line (two of them saves of edited trees) -/
+theorem sample_edits_valid : ∃ r, utk hooks sampleBios sampleSpecs = .ok r ∧ r.outs.length = 2 ∧
+    ∀ b ∈ r.outs, Valid.validImage b = true ∧ b.length = sampleBios.length := by
+  have hs := sample_run
+  match hu : utk hooks sampleBios sampleSpecs with
+  | .error _ => rw [hu] at hs; cases hs
+  | .ok r =>
+    rw [hu] at hs
+    simp only [Bool.and_eq_true, beq_iff_eq] at hs
+    refine ⟨r, rfl, hs.1, ?_⟩
+    refine edits_valid hooks hooks_bounded hooks_nvLaw sampleBios sampleSpecs r hu sampleBios_valid (by decide +kernel) ?_ ?_
+    · intro s hs
+      simp only [sampleSpecs, List.mem_cons, List.not_mem_nil, or_false] at hs
+      rcases hs with rfl | rfl | rfl | rfl | rfl
+      · trivial
+      · trivial
+      · show [0x4D, 0x5A].length + 28 < 4294967296; decide
+      · trivial
+      · trivial
+    · intro ops st t st' hc hp
+      have : st = {} := by
+        simp only [sampleSpecs, cliParse, cliOne] at hc
+        cases hc; rfl
+      subst this
+      have h2 := sampleBios_readAlike
+      rw [hp] at h2
+      exact h2
+
+/-! ### `create-fv` (model: Uefi/CreateFv.lean, tie T2: harness/props/c02/createfv.go) -/
+
+/-- **the volume `create-fv` builds is valid**: under erase polarity 0xFF the bytes
+    `createEmptyFirmwareVolume` produces for a 16-byte name and a size below 16 TiB pass the reader's
+    volume rules V1–V7 (72-byte header with a one-entry block map that adds up to the length, header
+    checksum, extended header behind the block map, file area = free space) and are `size` bytes -/
+theorem createFv_volume_valid (fvOffset size : Nat) (name : Guid) (v : Fv) (hn : name.length = 16) (hs : size < 2 ^ 44)
+    (h : createEmptyFv 0xFF fvOffset size name = .ok v) :
+    (∃ fuel, Valid.fvOk fuel v.buf = true) ∧ v.buf.length = size := by
+  obtain ⟨htop, _, hlen, _, _⟩ := createEmptyFv_ok fvOffset size name v hn hs h
+  exact ⟨(fvOk_node_facts v htop.1).2.2.2, hlen⟩
+
+/-- **`create-fv` keeps the invariant of the central theorem** (and the size of the image), when it
+    finds its state as `CreateFvPre` asks: erase polarity 0xFF, a 16-byte name, and the padding it
+    splits is entered at a multiple of 8 and shows no volume signature at its probes -/
+theorem createFv_valid (pol : UInt8) (abs size : Nat) (name : Guid) (t t' : Tree) (hok : TreeOk t) (hL : rootLen t < 2 ^ 31)
+    (h : createFvOp pol abs size name t = .ok t') (hpre : CreateFvPre pol abs size name t) :
+    TreeOk t' ∧ rootLen t' = rootLen t :=
+  createFvOp_ok pol abs size name t t' hok hL h hpre
+
+/-- **`edits_valid` with `create-fv`, from a tree**: command lines that mix `create-fv` with the
+    modelled operations; `Guard2` = every `create-fv` finds its state as `CreateFvPre` asks -/
+theorem edits_valid_createfv_tree (h : Hooks) (hlaw : h.NvLaw) (ops : List Op2) (t : Tree) (st : St) (s' : Run)
+    (hr : run2 h ops { tree := t, st := st } = .ok s') (hops : ∀ op ∈ ops, Op2Ok op)
+    (hg : Guard2 h ops { tree := t, st := st }) (hok : TreeOk t) (hL : rootLen t < 2 ^ 31) :
+    ∀ b ∈ s'.outs, Valid.validImage b = true ∧ b.length = rootLen t :=
+  run2_valid h hlaw ops _ s' hr hops hg hok hL (by intro b hb; cases hb)
+
+/-- **`edits_valid` with `create-fv`, from the bytes** -/
+theorem edits_valid_createfv (h : Hooks) (hb : h.BoundedCodecs) (hlaw : h.NvLaw) (image : Bytes) (specs : List OpSpec2) (r : Run)
+    (hu : utk2 h image specs = .ok r)
+    (hv : Valid.validImage image = true) (hL : image.length < 65536 * 4096)
+    (hspecs : ∀ s, .base s ∈ specs → SpecOk h s)
+    (hRA : ∀ ops st t st', cliParse2 h specs {} = .ok (ops, st) →
+      parseWith h (defaultFuel image) image st = .ok (t, st') → readAlikeB t = true)
+    (hG : ∀ ops st t st', cliParse2 h specs {} = .ok (ops, st) →
+      parseWith h (defaultFuel image) image st = .ok (t, st') → Guard2 h ops { tree := t, st := st' }) :
+    ∀ b ∈ r.outs, Valid.validImage b = true ∧ b.length = image.length :=
+  edits_valid2 h hb hlaw image specs r hu hv hL hspecs hRA hG
+
+/-- `CreateFvPre` is decidable in practice (`createFvPreB`): 8 bytes into a 16-byte erased padding -/
+example : CreateFvPre 0xFF 8 8 (List.replicate 16 0) (.bios ⟨[.pad (List.replicate 16 0xFF) 0], [], 16, none⟩) :=
+  createFvPreB_sound _ _ _ _ _ (by decide)
+
+open CreateFvSample
+
+
+theorem sampleV_top : TopFvOk sampleV ∧ Valid.hasFlashSig sampleV.buf = false := by
+  obtain ⟨t, st', hp, hok⟩ := sampleBios_treeOk
+  have hs := sample_shape
+  unfold sampleV
+  rw [parseWith_eval, hp] at hs ⊢
+  cases t with
+  | flash f => simp at hs
+  | bios b =>
+    simp only [Bool.and_eq_true, Bool.not_eq_true', Option.isSome_iff_exists] at hs ⊢
+    obtain ⟨⟨v, hv⟩, h2⟩ := hs
+    rw [hv] at h2 ⊢
+    simp only [Option.getD_some] at h2 ⊢
+    exact ⟨firstFv_top b.elems v hok.1.elems hv, h2⟩
+
+def newName : Guid := [0x70, 0x71, 0x72, 0x73, 0x74, 0x75, 0x76, 0x77, 0x78, 0x79, 0x7a, 0x7b, 0x7c, 0x7d, 0x7e, 0x7f]
+/-- `create-fv 248 4096 <name>`, then `save` -/
+def sampleOps2 : List Op2 := [.createFv 248 4096 newName, .base .save]
+/-- the sample volume followed by 4104 erased bytes, erase polarity 0xFF -/
+def sampleRun0 : Run := { tree := volPad sampleV 4104, st := { pol := 0xFF } }
+
+set_option maxRecDepth 1000000 in
+theorem sample_run2 :
+    (match run2 hooks sampleOps2 sampleRun0 with
+     | .ok r => r.outs.length == 1 && sampleV.buf.length == 248
+     | .error _ => false) = true := by decide +kernel
+
+/-- **the hypotheses of `run2_valid` are jointly satisfiable on a run that creates a volume and
+    writes**: the invariant holds of the start tree, the conditions of `create-fv` hold, the run
+    succeeds and writes one image — which therefore passes the reader and has the size of the tree -/
+theorem sample_createfv_valid : ∃ r, run2 hooks sampleOps2 sampleRun0 = .ok r ∧ r.outs.length = 1 ∧
+    ∀ b ∈ r.outs, Valid.validImage b = true ∧ b.length = 4352 := by
+  have hs := sample_run2
+  match hu : run2 hooks sampleOps2 sampleRun0 with
+  | .error _ => rw [hu] at hs; cases hs
+  | .ok r =>
+    rw [hu] at hs
+    simp only [Bool.and_eq_true, beq_iff_eq] at hs
+    obtain ⟨hlen1, h248⟩ := hs
+    refine ⟨r, rfl, hlen1, ?_⟩
+    have hok : TreeOk sampleRun0.tree := volPad_ok sampleV 4104 sampleV_top.1 sampleV_top.2
+    have hroot : rootLen sampleRun0.tree = 4352 := by
+      show sampleV.buf.length + 4104 = 4352
+      rw [h248]
+    have hpre : CreateFvPre 0xFF 248 4096 newName sampleRun0.tree := by
+      refine ⟨rfl, rfl, fun p o ht => ?_⟩
+      simp only [biosBase, createFvTarget, h248] at ht ⊢
+      rw [if_pos ⟨by omega, by rw [List.length_replicate]; omega⟩] at ht
+      cases ht
+      exact ⟨by decide, noHit_replicateFF _ _⟩
+    have hg : Guard2 hooks sampleOps2 sampleRun0 := by
+      refine ⟨hpre, fun s' _ => ⟨trivial, fun _ _ => trivial⟩⟩
+    have := run2_valid hooks hooks_nvLaw sampleOps2 sampleRun0 r hu
+      (by intro op hop
+          simp only [sampleOps2, List.mem_cons, List.not_mem_nil, or_false] at hop
+          rcases hop with rfl | rfl <;> trivial)
+      hg hok (by rw [hroot]; omega) (by intro b hb; cases hb)
+    rw [hroot] at this
+    exact this
 end Fiano.Uefi.C02
